@@ -7,10 +7,26 @@ equality alone cannot show: no list/dict object occurs twice in one result,
 exposed public attributes == getSectionAttributes(), and - after mutating every
 container of the first result - a second load of the same text against the same
 schema object still yields the reference tree (defaults are copied, not shared).
+
+Spelling sheets (wave 5).  The search above writes every name and every value in two or three fixed spellings, so
+"reports its lower-cased name" and "holds its CONVERTED value" were only ever observed on those.  The sheets open
+the spelling axes, each exhaustively within stated bounds, every case judged by the same reference model and the
+same invariants as a search node:
+  names     every section name of vz.gen.spell (every code point any case mapping moves x 5 contexts; every string
+            <= 2 (thorough 3) over one representative per case-behaviour class) x slot kind x header form x type
+            spelling x placement; expected name = the written name lower-cased, expected type = the declared one;
+  values    per datatype every string up to a bound over its character-class alphabet whose value the independent
+            reference conversions (vz.ref.dtypes) fix, in EVERY value role (key / multikey / wildcard key /
+            wildcard multikey, each from the text and as a schema default) x placement;
+  keynames  every declared key / multikey / fixed section name up to a bound over {a, B, 1, -, _} x key type x
+            spelling of the name in the text (attribute derivation).
+Entries are packed into sheets (one load judges up to SHEET entries); a sheet that is not clean is re-run entry by
+entry, so a violation is reported on its single entry.
 """
 from vz import core
 from vz.engine import bfs
 from vz.gen import schema as M
+from vz.gen import spell as SP
 from vz.harness import load as H
 from vz.harness.dt import Wrapped
 from vz.ref import match as R
@@ -121,7 +137,8 @@ def walk_containers(v, out, sections):
 SENTINEL = "<mutated-by-check>"
 
 
-def check_case(S, sch, hist, text, acc, mid):
+def check_case(S, sch, hist, text, acc, mid, xtags=None):
+    xtags = xtags or {}
     obs = H.load(sch, text)
     ref = R.decide(S, hist)
     acc.ev()
@@ -130,7 +147,7 @@ def check_case(S, sch, hist, text, acc, mid):
         d = core.exc_desc(obs[1])
         acc.cls("internal")
         acc.violation("internal-error", case, d, ref.verdict,
-                      tags={"kind": "internal-error", "exc": d["class"], "where": d["where"]})
+                      tags=dict(xtags, kind="internal-error", exc=d["class"], where=d["where"]))
         return False
     o = "A" if obs[0] == "ok" else "R"
     if ref.verdict == "U":
@@ -152,14 +169,14 @@ def check_case(S, sch, hist, text, acc, mid):
     acc.sample(lambda: dict(case, tree=repr(t1)))
     if t1 != ref.tree:
         acc.violation("wrong-value-tree", case, repr(t1), repr(ref.tree),
-                      tags={"kind": "wrong-value-tree", "feature": diff_feature(t1, ref.tree)})
+                      tags=dict(xtags, kind="wrong-value-tree", feature=diff_feature(t1, ref.tree)))
         return False
     conts, sects = [], []
     walk_containers(cfg, conts, sects)
     ids = [id(c) for c in conts]
     if len(set(ids)) != len(ids):
         acc.violation("container-object-shared-within-result", case, "a list/dict object occurs twice",
-                      "distinct objects", tags={"kind": "aliasing", "where": "within-result"})
+                      "distinct objects", tags=dict(xtags, kind="aliasing", where="within-result"))
         return False
     for sv in sects:
         # every declared attribute is an instance attribute, and no other public one exists (names the section
@@ -168,7 +185,7 @@ def check_case(S, sch, hist, text, acc, mid):
         public = sorted(k for k in vars(sv) if not k.startswith("_") or k in declared)
         if public != sorted(declared):
             acc.violation("attribute-set-mismatch", case, public, sorted(sv.getSectionAttributes()),
-                          tags={"kind": "attribute-set"})
+                          tags=dict(xtags, kind="attribute-set"))
             return False
     # mutate every container of the first result, then load the same text again
     for c in conts:
@@ -181,7 +198,7 @@ def check_case(S, sch, hist, text, acc, mid):
     if obs2[0] != "ok" or H.tree(obs2[1]) != ref.tree:
         acc.violation("second-load-differs-after-mutating-first-result", case,
                       repr(H.tree(obs2[1])) if obs2[0] == "ok" else [obs2[0], str(obs2[1])[:200]],
-                      repr(ref.tree), tags={"kind": "aliasing", "where": "across-loads"})
+                      repr(ref.tree), tags=dict(xtags, kind="aliasing", where="across-loads"))
         return False
     return True
 
@@ -219,6 +236,292 @@ def diff_feature(a, b):
     return "scalar %s/%s" % (a[0], b[0]) if a[0] != b[0] else "scalar-value"
 
 
+# ---------------------------------------------------------------------------
+# spelling sheets
+
+SHEET = 64            # entries judged by one load (names); value / key-name sheets hold SHEET // 2
+_TABLE_CONVERT = R.convert
+
+
+def _wide_convert(datatype, text):
+    """The token table of vz.ref.match first (today's behaviour on every token it fixes); a token it does not fix is
+    decided by the independent reference conversion of vz.ref.dtypes - on that reference's exact domain only."""
+    try:
+        return _TABLE_CONVERT(datatype, text)
+    except R.OutsideDomain:
+        ref = SP.D.REFERENCE.get(R.ALIASES.get(datatype, datatype))
+        if ref is None:
+            raise
+        r = ref(text)
+        if r[0] == SP.D.OK:
+            return ("ok", r[1])
+        if r[0] == SP.D.REJECT:
+            return R.BAD
+        raise
+
+
+def install_wide_reference():
+    """Process-local: the reference matcher of THIS check run converts through _wide_convert."""
+    R.convert = _wide_convert
+
+
+# kind -> (slot name, slot type, type written in the header, multi, type-environment keywords)
+NAME_KINDS = {
+    "multisection-star-l1": ("*", "l1", "l1", True, {}),
+    "multisection-plus-l1": ("+", "l1", "l1", True, {}),
+    "multisection-star-a-i2": ("*", "a", "i2", True, {"nimpl": 3, "impl_dt": True}),
+    "section-star-l1": ("*", "l1", "l1", False, {}),
+    "section-plus-a-i1": ("+", "a", "i1", False, {"nimpl": 3, "impl_dt": True}),
+}
+MULTI_KINDS = [k for k in NAME_KINDS if NAME_KINDS[k][3]]
+SINGLE_KINDS = [k for k in NAME_KINDS if not NAME_KINDS[k][3]]
+VALUE_ROLES = ("key-text", "key-default", "multikey-text", "multikey-default", "pluskey-text", "pluskey-default",
+               "plusmultikey-text", "plusmultikey-default")
+KEYNAME_KINDS = ("key", "multikey", "section")
+
+
+def build_sheet(spec):
+    """spec (JSON-able) -> (schema model, root prefix, events)."""
+    ax, p, ent = spec["axis"], spec["placement"], spec["entries"]
+    wrap = M.SECT_DT_WRAP if p else None
+    if ax == "name":
+        slot, stype, htype, multi, envkw = NAME_KINDS[spec["kind"]]
+        S, root = M.place((M.Sect(slot, stype, attribute="s1", multi=multi),), p, M.type_env(**envkw),
+                          cut_datatype=wrap)
+        ht = htype.upper() if spec["typecase"] == "upper" else htype
+        inner = ("k", "lk" if htype == "l1" else "ik", "v")
+        if spec.get("named_path"):       # the enclosing sections carry the spelled name as well
+            root = [(e[0], e[1], ent[0]) for e in root]
+        evs = []
+        for n in ent:
+            if spec["form"] == "e":
+                evs.append(("e", ht, n))
+            else:
+                evs += [("o", ht, n), inner, ("c",)]
+        return S, tuple(root), tuple(evs)
+    if ax == "value":
+        dt, role = spec["dt"], spec["role"]
+        idx = range(len(ent))
+        evs = []
+        if role == "key-text":
+            items = tuple(M.Key("k%d" % i, dt) for i in idx)
+            evs = [("k", "k%d" % i, ent[i]) for i in idx]
+        elif role == "key-default":
+            items = tuple(M.Key("k%d" % i, dt, default=ent[i]) for i in idx)
+        elif role == "multikey-text":
+            items = (M.MultiKey("m1", dt),)
+            evs = [("k", "m1", t) for t in ent]
+        elif role == "multikey-default":
+            items = (M.MultiKey("m1", dt, defaults=tuple(ent)),)
+        elif role == "pluskey-text":
+            items = (M.Key("+", dt, attribute="w1"),)
+            evs = [("k", "z%d" % i, ent[i]) for i in idx]
+        elif role == "pluskey-default":
+            items = (M.Key("+", dt, attribute="w1", default=tuple(("z%d" % i, ent[i]) for i in idx)),)
+        elif role == "plusmultikey-text":
+            items = (M.MultiKey("+", dt, attribute="w1"),)
+            evs = [("k", "z%d" % (i % 4), ent[i]) for i in idx]
+        elif role == "plusmultikey-default":
+            items = (M.MultiKey("+", dt, attribute="w1", defaults=tuple(("z%d" % (i % 4), ent[i]) for i in idx)),)
+        else:
+            raise core.HarnessError("unknown value role %r" % (role,))
+        # one more key, always given by the text, so that a default-only sheet is still a text with content
+        items += (M.Key("kx"),)
+        evs.append(("k", "kx", "v"))
+        S, root = M.place(items, p, M.type_env(), cut_datatype=wrap)
+        return S, tuple(root), tuple(evs)
+    if ax == "keyname":
+        kt, kind = spec["keytype"], spec["kind"]
+        spell = (lambda n: n.swapcase()) if spec["textcase"] == "swap" else (lambda n: n)
+        if kind == "key":
+            items = tuple(M.Key(n, default="dv") for n in ent)
+            evs = [("k", spell(n), "v%d" % i) for i, n in enumerate(ent) if i % 2 == 0]
+        elif kind == "multikey":
+            items = tuple(M.MultiKey(n) for n in ent)
+            evs = [("k", spell(n), "v%d" % i) for i, n in enumerate(ent) if i % 2 == 0]
+            evs += [("k", spell(n), "w%d" % i) for i, n in enumerate(ent) if i % 4 == 0]
+        else:
+            items = tuple(M.Sect(n, "l1") for n in ent)
+            evs = [("e", "l1", spell(n)) for i, n in enumerate(ent) if i % 2 == 0]
+        S, root = M.place(items, p, M.type_env(keytype=kt) if kt else M.type_env(), keytype=kt, cut_datatype=wrap)
+        return S, tuple(root), tuple(evs)
+    raise core.HarnessError("unknown sheet axis %r" % (ax,))
+
+
+def sheet_tags(spec):
+    t = {"axis": spec["axis"]}
+    for k in ("kind", "dt", "role", "keytype"):
+        if k in spec:
+            t[k] = spec[k]
+    return t
+
+
+def run_sheet(spec, acc, cache):
+    S, root, evs = build_sheet(spec)
+    xml = M.render(S)
+    n = len(spec["entries"])
+    acc.current = spec
+    sch = cache.get(xml)
+    if sch is None:
+        if len(cache) > 8:
+            cache.clear()
+        try:
+            sch = cache[xml] = H.load_schema(xml)
+        except Exception as e:
+            # a schema of the sheet family is refused: no text is accepted against it, so C02 has nothing to say
+            # (schema validity is C10's) - but the entry is NOT covered, and the run must not pass for it
+            acc.extra["sheets"] += 1
+            if n > 1:
+                acc.extra["sheets_rerun_entry_by_entry"] += 1
+                for e1 in spec["entries"]:
+                    run_sheet(dict(spec, entries=[e1]), acc, cache)
+            else:
+                acc.extra["sheet_entry_disagreements"] += 1
+                if acc.extra["sheet_entry_disagreements"] <= 3:
+                    acc.clause("sheet-schema-refused %s: %s" % (ascii(sorted(spec.items())), ascii(str(e))[:200]))
+            return
+    hist = root + evs
+    text = H.render_events(hist)
+    probe = core.Acc()
+    check_case(S, sch, hist, text, probe, {"sheet": spec, "schema": xml}, sheet_tags(spec))
+    clean = not probe.violations and probe.classes.get("accepted", 0) == 1
+    acc.merge(probe)
+    acc.extra["sheets"] += 1
+    if clean:
+        acc.extra["%s_spellings_judged" % spec["axis"]] += n
+        return
+    if n > 1:
+        acc.extra["sheets_rerun_entry_by_entry"] += 1
+        for e in spec["entries"]:
+            run_sheet(dict(spec, entries=[e]), acc, cache)
+    elif not probe.violations:
+        if probe.classes.get("rejected"):
+            acc.extra["%s_spellings_refused_as_the_reference_says" % spec["axis"]] += 1
+        else:
+            # the reference accepts (or is silent on) a text of the sheet domain that the implementation refuses
+            acc.extra["sheet_entry_disagreements"] += 1
+            if acc.extra["sheet_entry_disagreements"] <= 3:
+                acc.clause("sheet-disagreement %s" % ascii(sorted(spec.items())))
+
+
+def sheet_shard(shard, acc):
+    install_wide_reference()
+    cache = {}
+    base, groups = shard
+    if "sweep" in base:
+        # code points are expanded here (thorough: the whole code space would not fit a pickled shard list)
+        lo, hi, moved_only = base["sweep"]
+        cps = [chr(i) for i in range(lo, hi)
+               if SP.name_char(chr(i)) and (not moved_only or SP.case_moved(chr(i)))]
+        groups = SP.pack(SP.sweep_names(cps, tuple(base["ctx"])), base["size"])
+        base = {k: v for k, v in base.items() if k not in ("sweep", "ctx", "size")}
+    for ent in groups:
+        run_sheet(dict(base, entries=list(ent)), acc, cache)
+    acc.extra["sheet_shards"] += 1
+    return acc
+
+
+def _chunks(lst, n):
+    return [lst[i:i + n] for i in range(0, len(lst), n)]
+
+
+def name_shards(tier, stats):
+    quick = tier == "quick"
+    shards = []
+    moved = SP.code_points(True)
+    alpha = SP.name_alphabet(moved)
+    stats["case_moved_code_points"] = len(moved)
+    stats["name_alphabet"] = ["U+%04X" % ord(c) for c in alpha]
+    # (a) sweep: every code point a case mapping moves (thorough: every code point a name can hold), every context,
+    #     both header forms, through the '*' multisection at placement 1
+    step = 0x400 if quick else 0x1000
+    for ctx in SP.CONTEXTS:
+        for form in ("e", "o"):
+            moved_only = quick or form == "o"
+            for lo in range(0, 0x110000, step):
+                if moved_only and not any(lo <= ord(c) < lo + step for c in moved):
+                    continue
+                shards.append(({"axis": "name", "kind": "multisection-star-l1", "form": form, "typecase": "lower",
+                                "placement": 1, "sweep": (lo, lo + step, moved_only), "ctx": list(ctx),
+                                "size": SHEET if quick else 4 * SHEET}, None))
+    swept = [n for ctx in SP.CONTEXTS for n in SP.sweep_names(moved, ctx)]
+    stats["sweep_names_quick_set"] = len(swept)
+    stats["sweep_names_lower_differs_from_casefold"] = sum(1 for n in swept if n.lower() != n.casefold())
+    stats["sweep_names_lower_differs_from_charwise_lower"] = sum(
+        1 for n in swept if n.lower() != "".join(c.lower() for c in n))
+    stats["sweep_names_moved_by_lower"] = sum(1 for n in swept if n.lower() != n)
+    # (b) every string over the class alphabet x every multi slot kind x form x type spelling x placement
+    strs = [n for n in SP.strings(alpha, 2 if quick else 3) if SP.writable_name(n)]
+    stats["alphabet_names"] = len(strs)
+    for kind in MULTI_KINDS:
+        for form in ("e", "o"):
+            for tc in ("lower", "upper"):
+                for p in (0, 1, 2):
+                    base = {"axis": "name", "kind": kind, "form": form, "typecase": tc, "placement": p}
+                    for g in _chunks(SP.pack(strs, SHEET), 12 if quick else 64):
+                        shards.append((base, g))
+    # (c) one name per load: the single slots, and the enclosing sections named alike; class representatives in
+    #     every context
+    reps = []
+    for ctx in SP.CONTEXTS:
+        for n in SP.sweep_names(alpha, ctx):
+            if n not in reps:
+                reps.append(n)
+    stats["single_slot_names"] = len(reps)
+    for kind in SINGLE_KINDS + MULTI_KINDS[:1]:
+        for form in ("e", "o"):
+            for tc in ("lower", "upper"):
+                for p in (0, 1, 2):
+                    base = {"axis": "name", "kind": kind, "form": form, "typecase": tc, "placement": p,
+                            "named_path": p > 0}
+                    shards.append((base, [[n] for n in reps]))
+    return shards
+
+
+def value_shards(tier, stats):
+    shards = []
+    stats["value_tokens"] = {}
+    stats["value_tokens_with_upper_case_letters"] = 0
+    for dt in DATATYPES:
+        toks, cnt = SP.value_tokens(dt, tier)
+        stats["value_tokens"][dt] = dict(cnt, alphabet=SP.VALUE_SPACES[dt][0])
+        stats["value_tokens_with_upper_case_letters"] += sum(1 for t in toks if t != t.lower())
+        groups = _chunks(toks, SHEET // 2)
+        for role in VALUE_ROLES:
+            for p in (0, 1):
+                base = {"axis": "value", "dt": dt, "role": role, "placement": p}
+                for g in _chunks(groups, 16):
+                    shards.append((base, g))
+    return shards
+
+
+def keyname_shards(tier, stats):
+    shards = []
+    names = SP.key_names(4 if tier == "quick" else 5)
+    stats["keynames"] = {}
+    for kt in (None, "identifier"):
+        ktf = R.KEYTYPES[kt or "basic-key"]
+        ok = []
+        for n in names:
+            if ktf(n) is None or R.kt_basic_key(ktf(n)) is None:
+                # (a name that is no basic key - '_b' under identifier: the statement fixes the hyphens only, and the
+                # reference derives the attribute's case through the basic-key rule, so its case is outside its domain)
+                continue
+            a = R.attr_name(M.Key(n), ktf)
+            if R.kt_identifier(a) is None or a.startswith("getSection"):
+                continue
+            ok.append(n)
+        stats["keynames"][kt or "basic-key"] = len(ok)
+        groups = SP.pack(ok, SHEET // 2, keys=lambda n: ("k:" + ktf(n), "a:" + R.attr_name(M.Key(n), ktf),
+                                                         "l:" + n.lower()))
+        for kind in KEYNAME_KINDS:
+            for tc in ("same", "swap"):
+                for p in (0, 1):
+                    shards.append(({"axis": "keyname", "keytype": kt, "kind": kind, "textcase": tc, "placement": p},
+                                   groups))
+    return shards
+
+
 def shard(member, acc):
     S, root = build(member)
     xml = M.render(S)
@@ -232,6 +535,11 @@ def shard(member, acc):
 
 def run(tier):
     fam = family(tier)
+    install_wide_reference()
+    stats = {}
+    nsh = name_shards(tier, stats)
+    vsh = value_shards(tier, stats)
+    ksh = keyname_shards(tier, stats)
     run = core.Run(
         "C02", tier, "model_checking",
         rule="the C01 breadth-first search (states = canonical open-matcher state of the implementation) over "
@@ -241,14 +549,56 @@ def run(tier):
              "reference model, no container object shared inside the result, public attributes == "
              "getSectionAttributes(), second load after mutating the first result == reference tree.  "
              "Non-trivial = accepted sequence whose tree holds >= 1 value from the text and >= 1 default or "
-             "container (distinct sequences by construction).",
-        bounds={"schemas": len(fam), "datatypes": DATATYPES, "depth": sorted(set(m[5] for m in fam))},
-        assumptions=["reference value tree vz/ref/match.py with the token table VALUE_TABLE",
+             "container (distinct sequences by construction).  "
+             "SPELLING SHEETS, judged like a search node (same reference model, same invariants): "
+             "(names) every section name as written - every code point that a case mapping (lower / upper / "
+             "casefold / title / swapcase) moves%s, alone and in 4 contexts (after 'A', before 'a', between 'A' "
+             "and 'B', after 'a'), in both header forms; every string <= %d over one representative of every "
+             "case-behaviour class (+ digit, '-', '.', '_', a combining mark, an uncased letter) x 3 multisection "
+             "kinds x header form x type written lower / UPPER x placement 0-2; the class representatives in every "
+             "context through the single-section slots and with every enclosing section named alike - expected "
+             "name = str.lower() of the written name, expected type = the declared name; "
+             "(values) per datatype every string <= the bound over its character-class alphabet whose value the "
+             "independent reference conversion vz.ref.dtypes fixes, in each of 8 value roles (key, multikey, "
+             "'+' key, '+' multikey; from the text / as schema default) x placement 0-1; "
+             "(keynames) every declared name <= %d over {a,B,1,-,_} admitted by the key type, as key / multikey / "
+             "fixed section name x key type basic-key / identifier x text spelling same / swapped case x placement "
+             "0-1 (derived attribute names).  An entry is counted as judged only when its text was accepted and "
+             "its tree equalled the reference tree."
+             % ("" if tier == "quick" else " (and, in the '<t n/>' form, EVERY code point a name can hold)",
+                2 if tier == "quick" else 3, 4 if tier == "quick" else 5),
+        bounds={"schemas": len(fam), "datatypes": DATATYPES, "depth": sorted(set(m[5] for m in fam)),
+                "sheet_shards": {"names": len(nsh), "values": len(vsh), "keynames": len(ksh)},
+                "name_contexts": [list(c) for c in SP.CONTEXTS], "name_kinds": sorted(NAME_KINDS),
+                "value_roles": list(VALUE_ROLES),
+                "value_spaces": {dt: {"alphabet": SP.VALUE_SPACES[dt][0],
+                                      "max_length": SP.VALUE_SPACES[dt][1 if tier == "quick" else 2]}
+                                 for dt in DATATYPES},
+                "spelling_spaces": stats},
+        assumptions=["reference value tree vz/ref/match.py with the token table VALUE_TABLE; tokens outside the "
+                     "table are converted by the independent references of vz/ref/dtypes.py (exact domain only)",
+                     "'lower-cased' = str.lower() of the name as written",
                      "verdict disagreements are C01's and only counted here"])
     core.pmap(shard, fam, run.acc, shard_budget=1800.0)
+    core.pmap(sheet_shard, nsh + vsh + ksh, run.acc, shard_budget=1800.0)
     a = run.acc
     run.require(a.classes.get("accepted", 0) > 1000, "too few accepted nodes")
     run.require(a.extra.get("verdict_disagreements", 0) == 0 or True, "")
+    # the spelling axes were really exercised
+    x = a.extra
+    run.require(x.get("sheet_entry_disagreements", 0) == 0,
+                "%d sheet entries inside the reference's domain were refused by the implementation"
+                % x.get("sheet_entry_disagreements", 0))
+    run.require(x.get("name_spellings_judged", 0) >= 100000, "too few section-name spellings judged")
+    run.require(stats["sweep_names_lower_differs_from_casefold"] >= 500
+                and stats["sweep_names_lower_differs_from_charwise_lower"] >= 2
+                and stats["sweep_names_moved_by_lower"] >= 5000,
+                "the name sweep lost the names on which the lower-casing rules differ")
+    run.require(x.get("value_spellings_judged", 0) >= 16 * sum(
+        stats["value_tokens"][dt]["ok"] for dt in DATATYPES) - 0 and stats["value_tokens_with_upper_case_letters"] >= 500
+                and all(stats["value_tokens"][dt]["ok"] >= 50 for dt in DATATYPES),
+                "too few value spellings judged")
+    run.require(x.get("keyname_spellings_judged", 0) >= 500, "too few declared-name spellings judged")
     run.notes["merge_ratio"] = round(a.transitions / max(1, a.states), 1)
     return run
 
@@ -256,6 +606,9 @@ def run(tier):
 def replay(body):
     case = body["case"]
     m = case["member"]
+    install_wide_reference()
+    if "sheet" in m:
+        return replay_sheet(case)
     items = M.items_from_labels(m["label"], [dt_menu(dt) for dt in DATATYPES])
     member = (tuple(m["label"]), items, m["placement"], m["keytype"], m["env"], m["depth"])
     S, root = build(member)
@@ -270,6 +623,27 @@ def replay(body):
         print("text:\n" + case["text"])
         print("observed:", repr(H.tree(obs[1])) if obs[0] == "ok" else [obs[0], str(obs[1])])
         print("reference:", repr(R.decide(S, hist).tree))
+        for v in acc.violations.values():
+            print("REPLAY violation:", v["kind"])
+            rc = 1
+    return rc
+
+
+def replay_sheet(case):
+    m = case["member"]
+    S, root, evs = build_sheet(m["sheet"])
+    assert M.render(S) == m["schema"], "schema of the replay file cannot be rebuilt"
+    hist = tuple(tuple(e) for e in case["events"])
+    assert hist == root + evs, "events of the replay file cannot be rebuilt"
+    rc = 0
+    for _ in range(2):
+        acc = core.Acc()
+        sch = H.load_schema(m["schema"])
+        check_case(S, sch, hist, case["text"], acc, m, sheet_tags(m["sheet"]))
+        obs = H.load(sch, case["text"])
+        print("text:\n" + ascii(case["text"]))
+        print("observed:", ascii(H.tree(obs[1])) if obs[0] == "ok" else [obs[0], str(obs[1])])
+        print("reference:", ascii(R.decide(S, hist).tree))
         for v in acc.violations.values():
             print("REPLAY violation:", v["kind"])
             rc = 1
